@@ -202,14 +202,21 @@ theorem rebroadcast_outcome (node : Node) (H : Nat) (s : Tower) (k : Uuid) (t : 
 
 /-- **rejected_resubmission_dropped_no_refund** and **never_confirms_never_refunded**: every
 deletion of the block step other than that of completed trackers is without refund: no balance
-moves unless `check_confirmations` reports a completion (see also C07 `refund_only_on_completion`). -/
-theorem dropped_without_refund (s : Tower) (ks : List Uuid) (k : Uuid) (hk : k ∈ ks) :
+moves unless `check_confirmations` reports a completion (see also C07 `refund_only_on_completion`).
+(`hfk`: the foreign key — no tracker without its appointment row.) -/
+theorem dropped_without_refund (s : Tower) (ks : List Uuid) (k : Uuid) (hk : k ∈ ks)
+    (hfk : s.db.appts k = none → s.db.trackers k = none) :
     (deleteAppointments s ks false).db.trackers k = none ∧ (deleteAppointments s ks false).db.appts k = none ∧
     (deleteAppointments s ks false).mem.users = s.mem.users ∧ (deleteAppointments s ks false).db.users = s.db.users := by
-  simp [deleteAppointments, Db.removeAppts, hk]
+  refine ⟨?_, ?_, ?_, ?_⟩
+  · simp only [deleteAppointments, Bool.false_eq_true, ↓reduceIte]
+    exact Db.removeAppts_trackers_mem _ _ _ hk hfk
+  · simp [deleteAppointments, Db.removeAppts_appts, hk]
+  · simp [deleteAppointments]
+  · simp [deleteAppointments]
 
 /-- **completed_is_forgotten_and_refunded**: the refunding deletion removes the rows of exactly
-the given trackers. -/
+the given trackers, in the same durable write as the refunded balances. -/
 theorem completed_is_forgotten (s : Tower) (ks : List Uuid) (k : Uuid) :
     (deleteAppointments s ks true).db.trackers k =
       if k ∈ ks then none else (ks.foldl refundStep (s, [])).1.db.trackers k := by
@@ -217,8 +224,18 @@ theorem completed_is_forgotten (s : Tower) (ks : List Uuid) (k : Uuid) :
   simp only [↓reduceIte]
   generalize (ks.foldl refundStep (s, [])) = acc
   obtain ⟨s1, upd⟩ := acc
-  simp only
-  rw [foldl_db_trackers _ (by intro d u; split <;> simp)]
-  simp [Db.removeAppts]
+  simp only [Db.removeApptsRefund]
+  rw [foldl_db_trackers _ (by intro d u; simp)]
+  simp [Db.dropAppts]
+
+/-- the deletion and the refund are a single durable write: a crash cannot separate them -/
+theorem refund_is_one_write (s : Tower) (ks : List Uuid) :
+    ∃ balances, (deleteAppointments s ks true).db.log =
+      (ks.foldl refundStep (s, [])).1.db.log ++ [.removeAppts ks balances] := by
+  unfold deleteAppointments
+  simp only [↓reduceIte]
+  generalize (ks.foldl refundStep (s, [])) = acc
+  obtain ⟨s1, upd⟩ := acc
+  exact ⟨_, rfl⟩
 
 end Teos.C04
